@@ -262,6 +262,71 @@ def display_claim(label):
     return claim
 
 
+def display_combined_claim(label):
+    """same for the combined display (_show_2d_combined): the normalisation object handed to the colour merging
+    (list_of_arrays_to_rgba applies it to every array) is captured and applied to the symbolic image"""
+    from unittest import mock
+
+    import quantem.core.visualization.visualization as viz
+    mk_norm, kwargs, limits = DISPLAY_CONFIGS[label]
+
+    def claim(I):
+        captured = {}
+
+        def fake_list_rgba(arrays, norm=None, **kw):
+            captured["y"] = [norm(a) for a in arrays]
+            return np.zeros((1, 2, 4))
+
+        props = {nm: property(lambda self, nm=nm: self.__dict__.get("_verif_" + nm),
+                              lambda self, v, nm=nm: self.__dict__.__setitem__("_verif_" + nm, v)) for nm in ("vmin", "vmax")}
+        real_quantile = np.quantile
+
+        def recording_quantile(values, q, *a, **k):
+            lo, hi = real_quantile(values, q, *a, **k)
+            I.values["q_lo"], I.values["q_hi"] = float(lo), float(hi)
+            return lo, hi
+
+        with I.patch(cn, viz, overrides=dict(quantile=_quantile_stub(I))), \
+                (mock.patch.object(np, "quantile", recording_quantile) if I.mode != "sym" else _NullCtx()), \
+                mock.patch.object(viz, "list_of_arrays_to_rgba", fake_list_rgba), \
+                mock.patch.object(cn.CustomNormalization, "vmin", props["vmin"]), \
+                mock.patch.object(cn.CustomNormalization, "vmax", props["vmax"]):
+            x1 = I.real("x1", -10, 10)
+            x2 = I.real("x2", -10, 10)
+            x3 = I.real("x3", -10, 10)
+            I.assume(x1 <= x2)
+            I.assume(x1 < x3)
+            if I.mode != "sym":
+                x1, x2 = sorted([x1, x2])
+                if not (x1 < x3):
+                    x3 = x1 + 1.0
+                I.values.update(x1=x1, x2=x2, x3=x3)
+            pix = [x1, x2, x3] + (list(limits) if limits else [])
+            if I.mode == "sym":
+                from ..sym.npx import lift
+                data = lift(np.array([None] + pix, dtype=object)[1:].reshape(1, -1))
+            else:
+                data = np.array(pix, dtype=float).reshape(1, -1)
+            viz._show_2d_combined([data], norm=mk_norm(), figax=(None, _FakeAx()), **kwargs)
+            y = np.asarray(captured["y"][0]).reshape(-1)
+            rels = [Rel("displayed_range_lower", [y[0], y[1], y[2]], 0.0, op="ge"),
+                    Rel("displayed_range_upper", [y[0], y[1], y[2]], 1.0, op="le"),
+                    Rel("displayed_monotone", y[0], y[1], op="le")]
+            if limits:
+                rels += [Rel("configured_lower_limit_displayed_as_0", y[3], 0.0),
+                         Rel("configured_upper_limit_displayed_as_1", y[4], 1.0)]
+            return rels
+    return claim
+
+
+class _NullCtx:
+    def __enter__(self):
+        return None
+
+    def __exit__(self, *a):
+        return False
+
+
 INTERVALS = ["manual", "centered:half", "centered", "quantile"]
 STRETCHES = ["linear", "power", "logarithmic", "asinh"]
 INVERSES = ["linear", "power", "log", "invlog", "asinh", "sinh"]
@@ -278,6 +343,8 @@ def cases():
         out.append((f"degenerate_interval[{st}]", degenerate_claim(st)))
     for lab in DISPLAY_CONFIGS:
         out.append((f"display[{lab}]", display_claim(lab)))
+    for lab in ("manual:dict", "manual:kwargs", "centered:half:config", "centered:vcenter:dict", "default"):
+        out.append((f"display_combined[{lab}]", display_combined_claim(lab)))
     return out
 
 
@@ -307,7 +374,7 @@ def run(check, tier):
     check.add_functions("BaseInterval.__call__", "ManualInterval.get_limits", "CenteredInterval.get_limits", "QuantileInterval.get_limits",
                         "LinearStretch", "PowerLawStretch", "LogarithmicStretch", "InverseLogarithmicStretch",
                         "InverseHyperbolicSineStretch", "HyperbolicSineStretch", "their .inverse", "CustomNormalization.__init__/__call__",
-                        "_resolve_normalization / NORMALIZATION_PRESETS", "visualization._show_2d_array (configuration -> applied normalisation)")
+                        "_resolve_normalization / NORMALIZATION_PRESETS", "visualization._show_2d_array, _show_2d_combined (configuration -> applied normalisation)")
     check.bounds.update(symbolic="vmin < vmax, data x1 <= x2 and a third value in [-10, 10], power in [0.05, 8], logarithmic a in [0.01, 2000], "
                                  "asinh a in [0.01, 10], centre in [-5, 5], half range in (0, 10]",
                         configurations="4 interval kinds x 4 stretch kinds; 6 stretch/inverse pairs; every preset resolves to one of them; "
@@ -320,7 +387,7 @@ def run(check, tier):
                           "on the interval object", "NaN/inf behaviour is exercised concretely (not a solver claim)"]
     check.outside += ["degenerate intervals vmin == vmax for the logarithmic / asinh stretches", "LinearStretch with non-default slope/intercept",
                       "integer input dtypes beyond the engine-X menu (six dtypes, values at the extremes and interior of the dtype, four "
-                      "Python-int limit pairs, manual interval, linear / power stretch)", "display functions other than _show_2d_array (show_2d grids, _show_2d_combined), complex input to the display, colour mapping / colour bars; "
+                      "Python-int limit pairs / centres, manual and centred intervals, linear / power stretch)", "display functions other than _show_2d_array / _show_2d_combined (show_2d grids), complex input to the display, colour mapping / colour bars; "
                       "display configurations with logarithmic / asinh stretches (concrete stretch parameter: the UF laws are too weak at the clipped end points)"]
     check.engines.add("symnum + z3 " + __import__("z3").get_version_string())
     presets_ok = True
@@ -339,4 +406,6 @@ def run(check, tier):
     run_jobs(check, "harness/c20_special.py", [dict(fn="special", timeout=300, key="special_values"),
                                                dict(fn="special_preset", timeout=300, key="special_values_presets"),
                                                dict(fn="special__reach", timeout=60), dict(fn="int_dtype__reach", timeout=60)]
-             + [dict(fn="int_dtype", fixed=dict(dt=dt), timeout=400, key="integer_dtypes") for dt in range(6)])
+             + [dict(fn="int_dtype", fixed=dict(dt=dt), timeout=400, key="integer_dtypes") for dt in range(6)]
+             + [dict(fn="int_dtype_centered__reach", timeout=60)]
+             + [dict(fn="int_dtype_centered", fixed=dict(dt=dt), timeout=400, key="integer_dtypes_centered") for dt in range(6)])
